@@ -27,7 +27,7 @@ structure Cert (a b N p1 q1 p2 q2 : Nat) : Prop where
 
 /-- integer core: the lattice decomposition -/
 theorem int_decomp {a b p1 q1 p2 q2 n m : ℤ} (hb : 0 < b) (hq1 : 0 ≤ q1) (hq2 : 0 ≤ q2)
-    (lo : p1 * b ≤ a * q1) (hi : a * q2 < p2 * b) (det : p2 * q1 = p1 * q2 + 1)
+    (_lo : p1 * b ≤ a * q1) (hi : a * q2 < p2 * b) (det : p2 * q1 = p1 * q2 + 1)
     (hn : 0 < n) (hbig : n < q1 + q2) (hm : m * b ≤ n * a) :
     1 ≤ n * p2 - m * q2 ∧ 0 ≤ n * p1 - m * q1
       ∧ n * a - m * b = (n * p2 - m * q2) * (a * q1 - p1 * b) + (n * p1 - m * q1) * (p2 * b - a * q2) := by
@@ -48,13 +48,12 @@ theorem int_decomp {a b p1 q1 p2 q2 n m : ℤ} (hb : 0 < b) (hq1 : 0 ≤ q1) (hq
     have e2 : q2 ≤ (m * q1 - n * p1) * q2 := by nlinarith
     have : (n * p2 - m * q2) * q1 + (m * q1 - n * p1) * q2 = n := by linear_combination hid
     omega
-  · have : n * (p2 * q1 - p1 * q2) = n := by rw [det]; ring
-    linear_combination (a * 0 : ℤ) + (b * m - a * n) * det
+  · linear_combination (b * m - a * n) * det
 
 variable {a b N p1 q1 p2 q2 : Nat}
 
 /-- `(⌊n·a/b⌋ + 1)/n ≥ p2/q2` -/
-theorem upper (h : Cert a b N p1 q1 p2 q2) {n : Nat} (h1 : 1 ≤ n) (hn : n ≤ N) :
+theorem upper (h : Cert a b N p1 q1 p2 q2) {n : Nat} (_h1 : 1 ≤ n) (hn : n ≤ N) :
     n * p2 ≤ (n * a / b + 1) * q2 := by
   by_contra hcon
   have hcon : (n * a / b + 1) * q2 < n * p2 := Nat.lt_of_not_le hcon
